@@ -110,6 +110,16 @@ def _attr_assigned(stmts):
         def visit_AugAssign(self, n):
             self._tgt(n.target)
             self.generic_visit(n)
+
+        def visit_Call(self, n):
+            # obj.attr.append(...) mutates the attribute's object
+            f = n.func
+            if isinstance(f, ast.Attribute) and f.attr in _MUTATORS and isinstance(f.value, ast.Attribute) \
+                    and isinstance(f.value.value, ast.Name):
+                key = (f.value.value.id, f.value.attr)
+                if key not in out:
+                    out.append(key)
+            self.generic_visit(n)
     for s in stmts:
         V().visit(s)
     return out
